@@ -59,6 +59,7 @@ func (o AuthOp) Sx() string {
 }
 
 type AuthCase struct {
+	InMemory          bool // authorize the *Biscuit returned by Build/Append, without a wire round trip
 	MaxFacts, MaxIter int
 	Ctor              string // for | auth | verifier
 	Tokens            [][]Block
@@ -82,7 +83,11 @@ func (a AuthCase) Sx() string {
 	if ctor == "" {
 		ctor = "for"
 	}
-	return fmt.Sprintf("(case (limits %d %d) (ctor %s) %s %s (rx))", a.MaxFacts, a.MaxIter, ctor, sxList("tokens", toks), sxList("ops", ops))
+	mem := ""
+	if a.InMemory {
+		mem = " (inmemory)"
+	}
+	return fmt.Sprintf("(case (limits %d %d) (ctor %s)%s %s %s (rx))", a.MaxFacts, a.MaxIter, ctor, mem, sxList("tokens", toks), sxList("ops", ops))
 }
 
 func decAuthCase(cs *Sx) (AuthCase, error) {
@@ -93,6 +98,9 @@ func decAuthCase(cs *Sx) (AuthCase, error) {
 		fmt.Sscanf(lim[1].Atom, "%d", &a.MaxIter)
 	}
 	a.Ctor = "for"
+	if _, ok := cs.field("inmemory"); ok {
+		a.InMemory = true
+	}
 	if c, ok := cs.field("ctor"); ok && len(c) == 1 {
 		a.Ctor = c[0].Atom
 	}
@@ -147,6 +155,11 @@ func rootKeys() (ed25519.PublicKey, ed25519.PrivateKey) {
 
 // buildToken builds a token through the public API and passes it through the wire.
 func buildToken(blocks []Block, rng *Rng) (*biscuit.Biscuit, error) {
+	return buildTokenMem(blocks, rng, false)
+}
+
+// buildTokenMem: with inMemory the *Biscuit returned by Build / Append is used as is.
+func buildTokenMem(blocks []Block, rng *Rng, inMemory bool) (*biscuit.Biscuit, error) {
 	_, priv := rootKeys()
 	rd := &detRand{rng}
 	b := biscuit.NewBuilder(priv, biscuit.WithRNG(rd))
@@ -194,6 +207,9 @@ func buildToken(blocks []Block, rng *Rng) (*biscuit.Biscuit, error) {
 		if err != nil {
 			return nil, err
 		}
+	}
+	if inMemory {
+		return tok, nil
 	}
 	ser, err := tok.Serialize()
 	if err != nil {
@@ -265,7 +281,7 @@ func goAuthSeq(a AuthCase) (res string) {
 	rng := NewRng(77)
 	toks := make([]*biscuit.Biscuit, len(a.Tokens))
 	for i, t := range a.Tokens {
-		tok, err := buildToken(t, rng)
+		tok, err := buildTokenMem(t, rng, a.InMemory)
 		if err != nil {
 			return "build-error " + err.Error()
 		}
@@ -356,7 +372,9 @@ type scenGen struct {
 var scenPreds = []struct {
 	n string
 	a int
-}{{"resource", 1}, {"operation", 1}, {"right", 2}, {"user", 1}, {"admin", 0}, {"owner", 2}, {"p", 1}, {"q", 2}, {"time", 1}}
+}{{"resource", 1}, {"operation", 1}, {"right", 2}, {"user", 1}, {"admin", 0}, {"owner", 2}, {"p", 1}, {"q", 2}, {"time", 1}, {"members", 1}}
+
+var memberSets = []Term{SetOf(S("alice"), S("bob"), S("carol")), SetOf(S("bob"), S("dave")), SetOf(I(1), I(2), I(3)), SetOf(S("alice"))}
 
 func newScenGen(r *Rng, mode int) *scenGen {
 	g := &scenGen{r: r, arity: map[string]int{}, mode: mode}
@@ -381,7 +399,11 @@ func (g *scenGen) fact() Pred {
 	n := Pick(g.r, g.preds)
 	p := Pred{Name: n}
 	for i := 0; i < g.arity[n]; i++ {
-		p.Terms = append(p.Terms, Pick(g.r, g.consts))
+		if n == "members" {
+			p.Terms = append(p.Terms, Pick(g.r, memberSets))
+		} else {
+			p.Terms = append(p.Terms, Pick(g.r, g.consts))
+		}
 	}
 	if len(g.pool) < 40 {
 		g.pool = append(g.pool, p)
@@ -468,8 +490,34 @@ func (g *scenGen) expr(vars []string) Expr {
 	}
 }
 
+// setBody: a body reading a set-valued fact through a set operator (the operand is the
+// term stored in the fact: an operator that mutates its operand corrupts the shared fact).
+func (g *scenGen) setBody() ([]Pred, []Expr) {
+	r := g.r
+	m := Op{K: 'v', T: V("m")}
+	lit := Op{K: 'v', T: Pick(r, memberSets)}
+	elem := Op{K: 'v', T: Pick(r, []Term{S("alice"), S("bob"), S("zed"), I(2)})}
+	var e Expr
+	switch r.Intn(5) {
+	case 0:
+		e = Expr{m, lit, {K: 'b', B: "intersection"}, {K: 'u', U: "len"}, {K: 'v', T: I(int64(r.Intn(3)))}, {K: 'b', B: Pick(r, []string{"ge", "gt", "eq"})}}
+	case 1:
+		e = Expr{m, lit, {K: 'b', B: "union"}, {K: 'u', U: "len"}, {K: 'v', T: I(int64(1 + r.Intn(4)))}, {K: 'b', B: Pick(r, []string{"ge", "le"})}}
+	case 2:
+		e = Expr{m, elem, {K: 'b', B: "contains"}}
+	case 3:
+		e = Expr{m, lit, {K: 'b', B: "contains"}}
+	default:
+		e = Expr{m, lit, {K: 'b', B: "intersection"}, lit, {K: 'b', B: "eq"}}
+	}
+	return []Pred{{Name: "members", Terms: []Term{V("m")}}}, []Expr{e}
+}
+
 func (g *scenGen) body() ([]Pred, []Expr) {
 	r := g.r
+	if g.mode > 0 && g.arity["members"] == 1 && hasName(g.preds, "members") && r.Chance(1, 3) {
+		return g.setBody()
+	}
 	nb := 1 + r.Intn(2)
 	if r.Chance(1, 8) {
 		nb = 3
@@ -613,4 +661,13 @@ func sortedCopy(xs []string) []string {
 
 func biscuitOpts(a AuthCase) biscuit.AuthorizerOption {
 	return biscuit.WithWorldOptions(datalog.WithMaxFacts(a.MaxFacts), datalog.WithMaxIterations(a.MaxIter), datalog.WithMaxDuration(20*time.Second))
+}
+
+func hasName(xs []string, n string) bool {
+	for _, x := range xs {
+		if x == n {
+			return true
+		}
+	}
+	return false
 }
